@@ -404,6 +404,9 @@ func (x *Exec) static(st *State, fn *ssa.Function, c *ssa.CallCommon, args []SVa
 		}
 		x.lockOp(st, lockMethods[name], lock, pos, k)
 		return
+	case pkg == "sync" && recvTypeName(fn) == "Map" && len(args) >= 1:
+		x.syncMap(st, fn, args, pos, k)
+		return
 	case pkg == "github.com/samber/lo" && (name == "TryCatchWithErrorValue" || strings.HasPrefix(name, "TryCatchWithErrorValue")):
 		x.tryCatch(st, args, pos, k)
 		return
@@ -497,6 +500,53 @@ func (x *Exec) static(st *State, fn *ssa.Function, c *ssa.CallCommon, args []SVa
 	}
 	x.event(st, ev)
 	ret(res...)
+}
+
+// syncMap models sync.Map (internally synchronised): Store/Load/Delete/... are events on the map named after
+// the field or cell holding it; Range(f) is the event <m>.Range, then f executed once for a generic element
+// (fresh key and value), then <m>.RangeEnd. The generic iteration stands for "for every element": it is only
+// faithful for bodies that do not accumulate state across iterations (checked: the body may not write cells).
+func (x *Exec) syncMap(st *State, fn *ssa.Function, args []SVal, pos token.Pos, k Cont) {
+	m := x.shortName(provName(args[0]))
+	if args[0].K == KLoc {
+		m = x.shortName(args[0].Loc)
+	}
+	name := fn.Name()
+	rest := args[1:]
+	if name != "Range" {
+		res := x.freshResults(st, m+"."+name, fn.Signature)
+		x.event(st, Event{Name: m + "." + name, Args: rest, Res: res, Pos: pos})
+		k(st, Exit{Kind: ExitReturn, Results: res})
+		return
+	}
+	x.event(st, Event{Name: m + ".Range", Pos: pos})
+	f := rest[0]
+	if f.K != KClosure && f.K != KFn {
+		x.unsupp(st, "sync.Map.Range with a non-literal function")
+		k(st, Exit{Kind: ExitStop})
+		return
+	}
+	key := mkU(q(x.D.fresh(m+"@key", "U")))
+	val := mkU(q(x.D.fresh(m+"@elem", "U")))
+	val.Src = "elem"
+	key.Src = "key"
+	before := map[string]bool{}
+	for w := range st.Written {
+		before[w] = true
+	}
+	x.run(st, f.Fn, []SVal{key, val}, f.Binds, func(st2 *State, ex Exit) {
+		if ex.Kind != ExitReturn {
+			k(st2, ex)
+			return
+		}
+		for w := range st2.Written {
+			if !before[w] && !strings.HasPrefix(w, "new#") && !strings.HasPrefix(w, "arr@") {
+				x.unsupp(st2, "sync.Map.Range body writes %s: the generic-iteration abstraction does not apply", w)
+			}
+		}
+		x.event(st2, Event{Name: m + ".RangeEnd", Pos: pos})
+		k(st2, Exit{Kind: ExitReturn})
+	})
 }
 
 // tryCatch models lo.TryCatchWithErrorValue(try, catch): run try; if it panics with p (or returns a
